@@ -6,6 +6,7 @@ package c14
 import (
 	"crypto/sha1"
 	"encoding/hex"
+	"encoding/json"
 	"fmt"
 	"math/rand"
 	"runtime"
@@ -517,6 +518,42 @@ func histKey(evs []tv.M) string {
 	return hex.EncodeToString(h.Sum(nil))
 }
 
+func marshalHistory(prog string, evs []tv.M) [][]byte {
+	lines := make([][]byte, 0, len(evs)+1)
+	r, _ := json.Marshal(tv.M{"ev": "reset", "prog": prog})
+	lines = append(lines, r)
+	for _, e := range evs {
+		j, err := json.Marshal(e)
+		if err != nil {
+			panic(err)
+		}
+		lines = append(lines, j)
+	}
+	return lines
+}
+
+func unmarshalHistory(lines [][]byte) []tv.M {
+	var evs []tv.M
+	for _, l := range lines[1:] {
+		var m tv.M
+		if err := json.Unmarshal(l, &m); err != nil {
+			panic(err)
+		}
+		evs = append(evs, m)
+	}
+	return evs
+}
+
+func idOf(e tv.M) int {
+	switch x := e["id"].(type) {
+	case int:
+		return x
+	case float64:
+		return int(x)
+	}
+	panic("record without id")
+}
+
 func emit(b *tv.Batch, reset tv.M, evs []tv.M) int {
 	i := b.Start(reset)
 	for _, e := range evs {
@@ -538,9 +575,9 @@ func prefixes(evs []tv.M) (cuts [][]tv.M, retOps []string) {
 	calls := map[int]tv.M{}
 	for _, e := range evs {
 		if e["ev"] == "ret" {
-			final[e["id"].(int)] = e["res"]
+			final[idOf(e)] = e["res"]
 		} else {
-			calls[e["id"].(int)] = e
+			calls[idOf(e)] = e
 		}
 	}
 	for j, e := range evs {
@@ -550,7 +587,7 @@ func prefixes(evs []tv.M) (cuts [][]tv.M, retOps []string) {
 		returned := map[int]bool{}
 		for _, x := range evs[:j+1] {
 			if x["ev"] == "ret" {
-				returned[x["id"].(int)] = true
+				returned[idOf(x)] = true
 			}
 		}
 		var cut []tv.M
@@ -559,13 +596,13 @@ func prefixes(evs []tv.M) (cuts [][]tv.M, retOps []string) {
 			for k, v := range x {
 				c[k] = v
 			}
-			if x["ev"] == "call" && !returned[x["id"].(int)] {
-				c["pres"] = final[x["id"].(int)]
+			if x["ev"] == "call" && !returned[idOf(x)] {
+				c["pres"] = final[idOf(x)]
 			}
 			cut = append(cut, c)
 		}
 		cuts = append(cuts, cut)
-		c := calls[e["id"].(int)]
+		c := calls[idOf(e)]
 		retOps = append(retOps, fmt.Sprint(c["obj"], ":", c["op"]))
 	}
 	return cuts, retOps
